@@ -106,10 +106,29 @@ func genLimitCase(rng *rand.Rand, L int64, thorough bool) *ReadCase {
 
 // memoryProbe receives a frame that declares `declared` bytes (or a compression bomb) under a
 // small limit and reports the heap growth in bytes.
-func memoryProbe(kind string) (int64, string) {
+func memoryProbe(kind string) (delta int64, res string) {
 	var stream []byte
 	flate := false
+	limit := int64(4096)
+	defer func() {
+		if r := recover(); r != nil {
+			delta, res = 1<<40, fmt.Sprint("panic: ", r)
+		}
+	}()
 	switch kind {
+	case "declared-128MiB-unlimited", "declared-128MiB-limit-1GiB":
+		n := uint64(128 << 20)
+		f := RawFrame{Fin: true, Op: 2, LenOverride: &n, ForceLen64: true, Payload: make([]byte, 1000)}
+		stream = f.Encode()
+		limit = -1
+		if kind == "declared-128MiB-limit-1GiB" {
+			limit = 1 << 30
+		}
+	case "declared-2^62-unlimited":
+		n := uint64(1) << 62
+		f := RawFrame{Fin: true, Op: 2, LenOverride: &n, ForceLen64: true, Payload: make([]byte, 1000)}
+		stream = f.Encode()
+		limit = -1
 	case "declared-2^62":
 		n := uint64(1) << 62
 		f := RawFrame{Fin: true, Op: 2, LenOverride: &n, ForceLen64: true, Payload: make([]byte, 1000)}
@@ -125,13 +144,13 @@ func memoryProbe(kind string) (int64, string) {
 	runtime.ReadMemStats(&m0)
 	rwc := newScriptRWC(stream, nil, "eof")
 	c := websocket.VerifNewConn(rwc, true, websocket.VerifCopts{Enabled: flate}, 0)
-	c.SetReadLimit(4096)
+	c.SetReadLimit(limit)
 	ctx, cancel := context.WithTimeout(context.Background(), 10*time.Second)
 	defer cancel()
 	_, b, err := c.Read(ctx)
 	runtime.ReadMemStats(&m1)
 	c.CloseNow()
-	res := fmt.Sprintf("read returned %d bytes, err=%v", len(b), err)
+	res = fmt.Sprintf("read returned %d bytes, err=%v", len(b), err)
 	if err == nil {
 		return 0, "no-error: " + res
 	}
@@ -141,7 +160,7 @@ func memoryProbe(kind string) (int64, string) {
 func runC08(ctx *runCtx) {
 	ctx.rep.Rule = "limits L in {0,1,125,4096,default(untouched),-1, 1MiB in thorough} x 1..3 messages sized L-1, L, L+1, 2L, random (any fragmentation, compressed and not, control frames inside), " +
 		"limit changes between messages, both roles; ground truth: messages <= L delivered in full, the first message > L fails after at most L+1 bytes (a prefix) and a Close 1009 is written; " +
-		"plus memory probes (frame declaring 2^62 bytes, 8 MiB -> ~8 KiB compression bomb under a 4096-byte limit) measured with runtime.MemStats. distinct = (L, sizes, role, flate)"
+		"plus memory probes through Conn.Read (frames declaring 2^62 / 128 MiB bytes but delivering 1000, under limits 4096, 1 GiB and -1; an 8 MiB -> ~8 KiB compression bomb under a 4096-byte limit) measured with runtime.MemStats, panics observed. distinct = (L, sizes, role, flate)"
 	if replayRead(ctx) {
 		return
 	}
@@ -197,7 +216,7 @@ func runC08(ctx *runCtx) {
 	}
 	runReadCases(ctx, cases, func(c *ReadCase) string { return "limit" })
 	// memory probes
-	for _, k := range []string{"declared-2^62", "bomb-1000x"} {
+	for _, k := range []string{"declared-2^62", "bomb-1000x", "declared-128MiB-unlimited", "declared-128MiB-limit-1GiB", "declared-2^62-unlimited"} {
 		delta, res := memoryProbe(k)
 		ctx.rep.eval("mem/" + k)
 		ctx.rep.note("memory probe %s: allocated %d bytes while receiving (%s)", k, delta, res)
